@@ -434,14 +434,14 @@ def g_request(rng, rid):
         else:
             req.update(body=list(rng.choice([b'zz\r\nabc', b'5\r\nab', b'', b'3;x\r\nabcXX'])), body_len=0, chunked=True)
         c = special('body', method='POST', json=rng.random() < 0.3)
-        c['before'] = [c3.g_hook(c3.Ctx(rng)) for _ in range(rng.choice([0, 0, 1]))]
+        c['before'] = [c3.g_hook(c3.Ctx(rng, False)) for _ in range(rng.choice([0, 0, 1]))]
         req.update({'class': 'body', 'body_class': cls, 'case': c})
         return req
     if r < 0.4:
         req.update({'class': 'echo', 'case': special('echo', method=rng.choice(['GET', 'POST', 'HEAD']),
                                                      path=rng.choice(['plain', 'special']))})
         return req
-    case = c3.g_case(rng)
+    case = c3.g_case(rng, edits=False)
     case['eh'] = []
     if case['routing']['k'] == 'ok':
         case['routing']['reg'] = 'ANY'
@@ -455,7 +455,7 @@ def g_history(rng, n=None):
     n = n or rng.choice([1, 2, 2, 3, 3, 4, 5, 8])
     eh = []
     if rng.random() < 0.25:
-        c = c3.Ctx(rng)
+        c = c3.Ctx(rng, False)
         for _ in range(rng.choice([1, 2])):
             code = rng.choice([404, 405, 500, 400, 413])
             k = rng.choice(['const', 'body', 'raise'])
